@@ -21,17 +21,21 @@ Theorem C01_discriminator_dispatch_is_union :
     a = b.
 Proof. exact disc_dispatch_is_union. Qed.
 
-(* every IR type outside template literals, intersections and the two dispatch forms: the printed validator answers
-   what the IR type means, for every value, every named environment and every fuel at which both evaluations end *)
+(* every IR type outside template literals and the two dispatch forms, with two side conditions that keep the listed findings
+   out: tuple prefix elements reject undefined (else short arrays are padded: short_tuple_padded_with_undefined) and the members
+   of an intersection accept objects only (else intersection_with_non_object_member_rejects_everything).  Both conditions are read
+   off the printed trees; for named members they are looked up in the printed environment (rej_of / objs_of).
+   Then the printed validator answers what the IR type means, for every value, every named environment and every fuel at
+   which both evaluations end. *)
 Theorem C01_printed_validator_means_the_IR :
   forall F ienv prefer renv',
-    env_printed ienv prefer renv' ->
+    env_printed (rej_of renv') (objs_of renv') ienv prefer renv' ->
     forall k1 t v a pf r k2 b,
       rmember F ienv k1 t v = Ok a ->
-      print ienv prefer pf t = Ok r -> plain_rt r = true ->
+      print ienv prefer pf t = Ok r -> plain_rt (rej_of renv') (objs_of renv') r = true ->
       validate F renv' k2 false r v = Ok b ->
       a = b.
-Proof. exact print_plain_correct. Qed.
+Proof. exact print_plain_correct_env. Qed.
 
 (* a union every flattened member of which is a literal (through references and nested unions) is printed as one literal-set
    dispatch; that validator answers what the union means, for every value (the listed literals being no NaN) *)
@@ -58,18 +62,27 @@ Theorem C01_refuted_for_short_tuples :
             rmember {| sfmt := fun _ => None; nfmt := fun _ => None |} [] 10 short_tuple (VArr [VStr "a"]) = Ok false.
 Proof. eexists. repeat split; vm_compute; reflexivity. Qed.
 
-(* non-vacuity: a recursive object type with optional properties, arrays, Map and plain unions *)
+(* non-vacuity: a recursive object type with optional properties, arrays, Map, plain unions, a tuple with rest whose prefix is
+   a named object, and an intersection of named objects *)
 Definition ex_ienv : ienv :=
   [("T", IObject [("next", (false, IRef "T")); ("t", (true, IArray (IAnyOf [IString; INumber])));
-                  ("u", (false, IAnyOf [IString; IArray IBoolean])); ("m", (false, IMap IString IDate))] None)].
+                  ("u", (false, IAnyOf [IString; IArray IBoolean])); ("m", (false, IMap IString IDate))] None);
+   ("P", IObject [("x", (true, INumber))] None);
+   ("Q", IObject [("y", (true, IString))] None);
+   ("W", IObject [("pair", (true, ITuple [IRef "P"; IString] (Some INumber))); ("both", (true, IAllOf [IRef "P"; IRef "Q"]))] None)].
 Example C01_nonvacuous :
   exists r renv',
-    print ex_ienv [] 20 (IRef "T") = Ok r /\ plain_rt r = true /\ print_env ex_ienv [] 20 = Ok renv' /\
-    forallb (fun kv => plain_rt (snd kv)) renv' = true /\
+    print ex_ienv [] 20 (IRef "T") = Ok r /\ print_env ex_ienv [] 20 = Ok renv' /\
+    plain_rt (rej_of renv') (objs_of renv') r = true /\
+    forallb (fun kv => plain_rt (rej_of renv') (objs_of renv') (snd kv)) renv' = true /\
     validate {| sfmt := fun _ => None; nfmt := fun _ => None |} renv' 30 false r
              (VObj [("t", VArr [VStr "a"; VNum (NInt 1)]); ("u", VArr [VBool true]); ("next", VObj [("t", VArr [VStr "b"])])]) = Ok true /\
     validate {| sfmt := fun _ => None; nfmt := fun _ => None |} renv' 30 false r
-             (VObj [("t", VArr [VStr "a"; VBool true])]) = Ok false.
+             (VObj [("t", VArr [VStr "a"; VBool true])]) = Ok false /\
+    validate {| sfmt := fun _ => None; nfmt := fun _ => None |} renv' 30 false (RRef "W")
+             (VObj [("pair", VArr [VObj [("x", VNum (NInt 1))]; VStr "s"; VNum (NInt 2)]); ("both", VObj [("x", VNum (NInt 1)); ("y", VStr "z")])]) = Ok true /\
+    validate {| sfmt := fun _ => None; nfmt := fun _ => None |} renv' 30 false (RRef "W")
+             (VObj [("pair", VArr [VObj [("x", VNum (NInt 1))]]); ("both", VObj [("x", VNum (NInt 1)); ("y", VStr "z")])]) = Ok false.
 Proof. eexists. eexists. repeat split; vm_compute; reflexivity. Qed.
 
 Print Assumptions C01_literal_set_dispatch_is_union.
